@@ -188,6 +188,10 @@ pub fn gen_cfg(id: &str, tier: Tier, variant: u64) -> GenCfg {
         "C03" | "C04" => GenCfg::new(if variant % 2 == 0 { Mode::Full } else { Mode::Safe }, ops),
         "C09" => GenCfg::new(Mode::Full, ops),
         "C13" => GenCfg::new(Mode::Elide, ops),
+        // C02 is stated for "any history"; a quarter of the workers explore the
+        // ELIDE domain (elided unadopt is documented as safe), with the known
+        // finding D4 excluded by construction
+        "C02" if variant % 4 == 3 => GenCfg::new(Mode::Elide, ops),
         "C12" => GenCfg::new(Mode::Consume, ops),
         "C14" => GenCfg::new(if variant % 3 == 0 { Mode::NoAdopt } else { Mode::Safe }, ops),
         _ => GenCfg::new(Mode::Safe, ops),
